@@ -13,6 +13,14 @@ CLAIMED = {
     note='Trusted: clang-14 front end, ll2c translator (validated against the repository test-suite), CBMC, the abstract model in harness/C15_hist.c, '
          'vasprintf stub; allocation does not fail; values are non-NaN; operation kinds and resize shapes are enumerated, not symbolic.',
     design='DESIGN.md section 4 / C15'),
+ 'C01': dict(
+    technique='symbolic interpretation of the real fill_t8/u8/t16/u16/ue14 and _vnacal_layout (clang-14 IR -> vf/irsym.py) with z3 deciding, cell by cell, that the linear system vnacal_apply builds is the documented M/S matrix equation',
+    text='Exact algebraic proof for the APPLY side only: for error-term types T8, U8, TE10, UE10, T16, U16, UE14 and square dimensions 1..2 (3 in thorough), with every error term and every measured cell a free complex symbol, '
+         'the (A, B) matrices the real fill_* functions build equal the documented equation of vnacal_layout.h (T: A = Ts - M\' Tx, B = M\' Tm - Ti; U: A = Ux M\' + Us, B = Um M\' + Ui; UE14 per column; M\' = M - El off-diagonal), '
+         'and _vnacal_layout places the blocks as documented for all 9 type codes and dims 1..4; with C19 (S = A^-1 B / B A^-1 exact) this shows apply solves the documented equation for S.  The calibrate side '
+         '(cell mapping, term expansion, assembly, solve) is NOT covered by this check.',
+    note='Trusted: clang front end, vf/irsym.py, z3, the oracle written from the header comments. Outside: everything before the error terms exist (vnacal_new_add_*, build_equation_terms, solve), E12 and the 1x2/2x1 apply cases, rounding, dimension 4.',
+    design='DESIGN.md section 4 / C01 (C01.c, C01.f)', cmd='python3-vt ./check C01'),
  'C03': dict(
     technique='CBMC 6.11 memory-safety / UB / leak instrumentation (bounds, pointer validity, use-after-free, double free, overflow, shifts, library assert(), unwinding assertions, --memory-leak-check) on the bounded API-history harnesses of the object families (clang-14 IR -> ll2c -> CBMC, and CBMC native for vnaproperty)',
     text='Bounded proof with CBMC: along every bounded API history of the family harnesses - vnadata (plans of 1..5 operations with symbolic indices -1..n+1), vnaproperty (API steps from 12 trees, containers '
@@ -115,13 +123,13 @@ m = {
  'hooks': {'guard': 'LIBVNA_VERIF', 'enable': 'none needed: static functions are reached by #include of the real .c file from the harness TU; stubs are supplied at link level',
            'baseline_off_cmd': 'make -C /repo check', 'source_commits': [], 'add_only': True},
  'engines': [
-    {'name': 'll2c+cbmc', 'path': 'vf/ll2c.py', 'serves_properties': [p for p in sorted(CLAIMED) if p not in ('C13', 'C04', 'C19')], 'kind_free_text': 'clang-14 -O0 IR -> C translator feeding CBMC 6.11 (bounded symbolic execution, SAT)'},
-    {'name': 'irsym+z3', 'path': 'vf/irsym.py', 'serves_properties': ['C04', 'C19'], 'kind_free_text': 'LLVM-IR symbolic interpreter with exact rational-function doubles; z3 nonlinear real arithmetic decides the relation'},
+    {'name': 'll2c+cbmc', 'path': 'vf/ll2c.py', 'serves_properties': [p for p in sorted(CLAIMED) if p not in ('C13', 'C01', 'C04', 'C19')], 'kind_free_text': 'clang-14 -O0 IR -> C translator feeding CBMC 6.11 (bounded symbolic execution, SAT)'},
+    {'name': 'irsym+z3', 'path': 'vf/irsym.py', 'serves_properties': ['C01', 'C04', 'C19'], 'kind_free_text': 'LLVM-IR symbolic interpreter with exact rational-function doubles; z3 nonlinear real arithmetic decides the relation'},
     {'name': 'cbmc-native', 'path': 'vf/core.py', 'serves_properties': ['C13'], 'kind_free_text': 'CBMC 6.11 C front end directly on the real .c files (complex-free units)'},
  ],
  'checks': [
     {'property_id': pid, 'quick_cmd': '%s --tier quick' % c.get('cmd', './check %s' % pid), 'thorough_cmd': '%s --tier thorough' % c.get('cmd', './check %s' % pid),
-     'evidence_file': 'evidence/%s.json' % pid, 'replay_cmd_template': './check --replay {path}', 'engine': 'irsym+z3' if pid in ('C04', 'C19') else ('ll2c+cbmc' if pid not in ('C13',) else 'cbmc-native'),
+     'evidence_file': 'evidence/%s.json' % pid, 'replay_cmd_template': './check --replay {path}', 'engine': 'irsym+z3' if pid in ('C01', 'C04', 'C19') else ('ll2c+cbmc' if pid not in ('C13',) else 'cbmc-native'),
      'level_claimed': {'category': c.get('category', 'proof'), 'text': c['text'], 'design_ref': c['design']}, 'level_note': c['note'], 'technique': c['technique']}
     for pid, c in sorted(CLAIMED.items())],
  'notes': 'All checks regenerate their encoding from /repo\'s working tree on every run. Exit 0 = held within the stated bounds; exit 1 + VIOLATION line = '
